@@ -9,6 +9,7 @@ func init() {
 	vRegister("H_C04_verify_constructed", H_C04_verify_constructed)
 	vRegister("H_C04_decoded", H_C04_decoded)
 	vRegister("H_C04_helpers", H_C04_helpers)
+	vRegister("H_C04_reparse", H_C04_reparse)
 }
 
 // mkAlgEntry puts an alg parameter into m: label 1 spelt with any Go integer
@@ -357,6 +358,50 @@ func H_C04_helpers() {
 	c04SignedUnder("helpers", sp, ext)
 	if err != nil {
 		vAssert("helpers: key not invoked when the helper refuses", sp.calls == 0)
+	}
+	vReach("end")
+}
+
+// a Headers value parsed from raw bytes a second time (UnmarshalFromRaw after RawProtected was replaced):
+// the alg consulted afterwards is the one in the bytes that will be signed / verified, not a left-over
+func H_C04_reparse() {
+	mk := func(name string, kind int) ([]byte, bool, int64) {
+		switch kind {
+		case 0:
+			return vSer(nnBstr([]byte{}, -1)), false, 0
+		case 1:
+			return vSer(nnBstr(vSer(nnMap([]*vNodeT{nnInt(0, 4, -1), nnBstr(vBlobN(name+".kid", 1, 4), -1)}, -1)), -1)), false, 0
+		}
+		mag := vUint64(name + ".mag")
+		vAssume(mag <= 1<<63-1)
+		sign := vChoose(name+".sign", 2)
+		a := int64(mag)
+		if sign == 1 {
+			a = -1 - int64(mag)
+		}
+		return vSer(nnBstr(vSer(nnMap([]*vNodeT{nnInt(0, 1, -1), nnInt(sign, mag, -1)}, -1)), -1)), true, a
+	}
+	raw1, _, _ := mk("first", 2)
+	h := Headers{RawProtected: raw1, RawUnprotected: []byte{0xa0}}
+	vAssume(h.UnmarshalFromRaw() == nil)
+	raw2, present, a := mk("second", vChoose("second.kind", 3))
+	h.RawProtected = raw2
+	vAssume(h.UnmarshalFromRaw() == nil)
+	got, gerr := h.Protected.Algorithm()
+	if present {
+		vAssert("reparse: the typed alg is the one in the current protected bytes", gerr == nil && int64(got) == a)
+	} else {
+		vAssert("reparse: no alg in the current protected bytes, none reported", gerr == ErrAlgorithmNotFound)
+	}
+	m := &Sign1Message{Headers: h, Payload: vBlob("payload"), Signature: vBlobN("sig", 1, 64)}
+	sv := &spyVerifier{alg: Algorithm(vInt64("verifier.alg"))}
+	ext := mkExternal("ext")
+	err := m.Verify(ext, sv)
+	switch {
+	case present && a != int64(sv.alg):
+		vAssert("reparse: mismatching alg refused, key not used", err != nil && errors.Is(err, ErrAlgorithmMismatch) && sv.calls == 0)
+	case !present && len(ext) == 0:
+		vAssert("reparse: absent alg without external data refused, key not used", err != nil && errors.Is(err, ErrAlgorithmNotFound) && sv.calls == 0)
 	}
 	vReach("end")
 }
